@@ -339,8 +339,20 @@ func init() {
 			if c.isTrue() {
 				return nil
 			}
-			if c.isFalse() || px.check(c) == Unsat {
+			if c.isFalse() {
 				px.abort(stAssumedAway, "assumption infeasible")
+			}
+			if px.replaying() {
+				// already found feasible by the path that created this prefix
+				px.assume(c)
+				return nil
+			}
+			r := px.checkWitness(c)
+			if r == Unsat {
+				px.abort(stAssumedAway, "assumption infeasible")
+			}
+			if r == Sat && !px.holdsInModel(c) && px.lastWitness != nil {
+				px.model = px.lastWitness
 			}
 			px.assume(c)
 			return nil
